@@ -38,7 +38,7 @@ type pageRec struct {
 // MainC09 is the entry point of the C09 check.
 func MainC09() {
 	ev.Main("C09", "exploration",
-		"worlds of 5-80 permanodes whose creation/modification times are drawn from a small set (massive ties), incl. pre-1970 and sub-second instants, equal instants written in different RFC 3339 zone notations (dateCreated/startDate/paymentDueDate/datePublished/dateModified attributes tied with each other, with claim dates and with file times), batches of typed (camliNodeType) permanodes with coinciding times; constraints incl. ones that pin a camliNodeType; for each permanode constraint x continuable sort {-created,-mod, unspecified = the default} x limit {1,2,3,5,n-1,n,n+1}: continuation tokens are followed until exhaustion (bounded by ceil(n/limit)+2 pages) and the concatenation must equal the unlimited ordered result as a sequence; sorts without continuation {blobref, created}: no token and a correct first page, or an exact chain; for every pivot x limit {1,2,3,4,7,n,n+1} x sort {-created,-mod,unspecified,blobref}: an around-query is empty iff the pivot is not in the full result, else a contiguous window of it containing the pivot; families: fresh request per call / ONE constraint value reused across scrolls and around queries / the query as an expression / the world delivered in 5 stages to one live corpus (claims before the file they name, stages without claims) with paging after every stage; every request is compared before/after Handler.Query; distinct = (family, world, constraint, sort, limit[, pivot], mode[@stage]); non-trivial = the full result has more entries than the limit",
+		"worlds of 5-80 permanodes whose creation/modification times are drawn from a small set (massive ties), incl. pre-1970 and sub-second instants, equal instants written in different RFC 3339 zone notations (dateCreated/startDate/paymentDueDate/datePublished/dateModified attributes tied with each other, with claim dates and with file times), batches of typed (camliNodeType) permanodes with coinciding times; constraints incl. ones that pin a camliNodeType; for each permanode constraint x continuable sort {-created,-mod, unspecified = the default} x limit {1,2,3,5,n-1,n,n+1}: continuation tokens are followed until exhaustion (bounded by ceil(n/limit)+2 pages) and the concatenation must equal the unlimited ordered result as a sequence; sorts without continuation {blobref, created}: no token and a correct first page, or an exact chain; for every pivot x limit {1,2,3,4,7,n,n+1} x sort {-created,-mod,unspecified,blobref}: an around-query is empty iff the pivot is not in the full result, else a contiguous window of it containing the pivot; families: fresh request per call / ONE constraint value reused across scrolls and around queries / the query as an expression / the world delivered in 5 stages to one live corpus (claims before the file they name, stages without claims) with paging after every stage; every request is compared before/after Handler.Query; epoch worlds (permanodes created EXACTLY at 1970-01-01T00:00:00Z through date attributes in several notations and a camliContent file with modtime 0, 1 ns / 1 s next to it, claims one second before/after it: continue tokens carrying the time 0) and far worlds (date attributes before 1678 / after 2262, years 1 and 9999); cancelled-context family: one request of a scroll / an around request is issued with a caller context that is already cancelled, past its deadline, or cancelled inside Handler.Query when the candidate source is chosen: an error is accepted (the request is repeated), a success is a page like any other (the scroll must still be exactly-once, a window must hold the pivot); distinct = (family, world, constraint, sort, limit[, pivot], mode[@stage]); non-trivial = the full result has more entries than the limit",
 		runC09)
 }
 
@@ -47,6 +47,7 @@ func runC09(r *ev.Run) {
 	index.SetVerboseCorpusLogging(false)
 	r.Assume("the full ordered result is the limit -1 answer of the same handler (its correctness is C08's subject); C09 additionally checks that it is ordered by (time desc, blobref desc) according to the harness's own time facts")
 	r.Assume("termination is decided by a page-count bound, never by time")
+	r.Assume("a request whose caller context has ended may be answered with an error or with a success; only what is reported as a success is judged; the contexts end at logical points (before the call, at the planner hook, a deadline in 1970), no clock is involved")
 	search.VerifSetCandSourceHook(candSourceHook)
 	nWorlds := r.Pick(30, 200)
 	wrng := r.Rand("worlds")
@@ -575,8 +576,15 @@ func (p *pager) checkContinue(st search.SortType, lim int, full []blob.Ref) {
 	if n > lim && lim > 1 && pages > 2 && p.fam == "" {
 		r.Sample(map[string]any{"world": wid, "constraint": json.RawMessage(cj), "sort": sortNames[st], "limit": lim, "mode": m.name, "pages": rec.Pages, "continue_tokens": rec.Tokens, "time_feature": feature})
 	}
+	// results whose time lies outside 1678..2262 get a signature class of their own, up front
+	sig := func(class string) string {
+		if feature == farFeature {
+			return "continue-token-time-outside-1678-2262/" + p.fam + class + "/" + sortNames[st]
+		}
+		return p.fam + class + "/" + sortNames[st] + "/" + feature
+	}
 	if !terminated {
-		r.Violation(p.fam+"no-termination/"+sortNames[st]+"/"+feature, fmt.Sprintf("%s [%s]: after %d pages (bound for %d results at limit %d) the server still returns a continue token; %d results collected (constraint %s)", wid, m.name, pages, n, lim, len(got), cj), rec)
+		r.Violation(sig("no-termination"), fmt.Sprintf("%s [%s]: after %d pages (bound for %d results at limit %d) the server still returns a continue token; %d results collected (constraint %s)", wid, m.name, pages, n, lim, len(got), cj), rec)
 		return
 	}
 	// exactly-once, in order
@@ -592,7 +600,7 @@ func (p *pager) checkContinue(st search.SortType, lim int, full []blob.Ref) {
 				class = "repeat"
 			}
 		}
-		r.Violation(p.fam+class+"/"+sortNames[st]+"/"+feature, fmt.Sprintf("%s [%s]: following continue tokens at limit %d yields %d results in %d pages, the unlimited result has %d (constraint %s)", wid, m.name, lim, len(got), pages, n, cj), rec)
+		r.Violation(sig(class), fmt.Sprintf("%s [%s]: following continue tokens at limit %d yields %d results in %d pages, the unlimited result has %d (constraint %s)", wid, m.name, lim, len(got), pages, n, cj), rec)
 		return
 	}
 	if st == search.CreatedAsc {
@@ -603,7 +611,7 @@ func (p *pager) checkContinue(st search.SortType, lim int, full []blob.Ref) {
 		}
 		for _, b := range full {
 			if !seen[b] {
-				r.Violation(p.fam+"skip/"+sortNames[st]+"/"+feature, fmt.Sprintf("%s [%s]: %v is never returned while paging at limit %d (constraint %s)", wid, m.name, b, lim, cj), rec)
+				r.Violation(sig("skip"), fmt.Sprintf("%s [%s]: %v is never returned while paging at limit %d (constraint %s)", wid, m.name, b, lim, cj), rec)
 				return
 			}
 		}
@@ -611,7 +619,7 @@ func (p *pager) checkContinue(st search.SortType, lim int, full []blob.Ref) {
 	}
 	for i := range got {
 		if got[i] != full[i] {
-			r.Violation(p.fam+"page-order/"+sortNames[st]+"/"+feature, fmt.Sprintf("%s [%s]: paged result differs from the unlimited one at position %d (limit %d, constraint %s)", wid, m.name, i, lim, cj), rec)
+			r.Violation(sig("page-order"), fmt.Sprintf("%s [%s]: paged result differs from the unlimited one at position %d (limit %d, constraint %s)", wid, m.name, i, lim, cj), rec)
 			return
 		}
 	}
@@ -636,7 +644,7 @@ func impliesNodeType(c *search.Constraint) bool {
 // first difference lies in a run of results with equal creation instants that were written in more
 // than one zone notation, the class is "tie-across-zone-notations".
 func divergenceFeature(w *sworld, full, got []blob.Ref, st search.SortType, whole string) string {
-	if st != search.CreatedDesc || whole == "pre1970" {
+	if st != search.CreatedDesc || whole == "pre1970" || whole == farFeature {
 		return whole
 	}
 	i := 0
@@ -669,6 +677,9 @@ func divergenceFeature(w *sworld, full, got []blob.Ref, st search.SortType, whol
 	return whole
 }
 
+// farFeature: some result's time is not representable as an int64 of nanoseconds since 1970.
+const farFeature = "outside-1678-2262"
+
 // timeFeature classifies the times of the result list for signatures.
 func timeFeature(w *sworld, full []blob.Ref, st search.SortType) string {
 	key := w.anyTime
@@ -679,6 +690,9 @@ func timeFeature(w *sworld, full []blob.Ref, st search.SortType) string {
 	seen := map[int64]bool{}
 	for _, b := range full {
 		t, _ := key(b)
+		if !fitsInt64Nanos(t) {
+			return farFeature
+		}
 		if t.UTC().Year() < 1970 {
 			pre = true
 		}
